@@ -66,9 +66,13 @@ def witnesses():
 
 def run(ctx):
     quick = ctx.quick()
+    if os.environ.get("VERIF_C14_ONLYBLIP"):          # development knob
+        blip_allow_list(ctx)
+        return
     nsim = int(os.environ.get("VERIF_C14_NSIM") or (600 if quick else 6000))       # simulated behaviours
     nbeh = int(os.environ.get("VERIF_C14_NBEH") or (1300 if quick else 1000000))    # sample of the exhaustive depth-3 set
-    with concurrent.futures.ThreadPoolExecutor(3) as ex:
+    with concurrent.futures.ThreadPoolExecutor(4) as ex:
+        f_blip = ex.submit(blip_allow_list, ctx)          # replication clause: own spec, own harness (package rest); runs alongside the TLC stage
         if os.environ.get("VERIF_C14_NOMC"):      # development knob (mutation self-tests): skip the exhaustive run
             f_mc = ex.submit(lambda: None)
         else:
@@ -76,6 +80,7 @@ def run(ctx):
         f_beh = ex.submit(gen_behaviours, ctx, "Beh_Attachments.cfg", None, "Beh")
         f_sim = ex.submit(gen_behaviours, ctx, "Sim_Attachments.cfg", nsim, "Sim")
         mc, beh_all, beh_sim = f_mc.result(), f_beh.result(), f_sim.result()
+        f_blip.result()
     ctx.cov["exhaustive"] = mc is not None
     rnd = random.Random(ctx.seed)
     beh_all.sort(key=lambda b: json.dumps(b, sort_keys=True))
@@ -102,15 +107,71 @@ def run(ctx):
         "storage = Rosmar; obsolete-attachment removal is switched on by forcing CachedCCVEnabled=false (Rosmar always reports cross-cluster versioning on); "
         "the eccv=true variant requires LeafSafe / Intact only",
         "data left behind by a REFUSED write (C11 finding F9) is tracked as residue and not counted against Collected",
-        "legacy (v1 / pre-2.5) attachments, attachment compaction and the BLIP allow-list are not covered by this check (see NOTES.md)"]
+        "BLIP allow-list: one revision in flight at a time (one-shot pulls filtered by document id), sub-protocols V2 and V3; counters > 1 only in the model",
+        "legacy (v1 / pre-2.5) attachments and attachment compaction are not covered by this check (see NOTES.md)"]
 
 
 def exhaustive(ctx, quick):
-    """quick: 2 documents, 2 names, 2 contents, 3 steps (thin shapes); thorough: additionally 2 documents, 1 name, 4 steps (all shapes)."""
+    """quick: 2 documents, 1 name, 2 contents, 3 steps, all shapes; thorough: additionally 2 names (at most one new attachment per write)
+    and 1 name with 4 steps and 2 steps inside a bracket."""
     r = model_check(ctx, SPEC, "MC_Attachments", "MC_Attachments.cfg", 5400)
     if not quick:
+        model_check(ctx, SPEC, "MC_Attachments", "MC_Attachments_2n.cfg", 5400)
         model_check(ctx, SPEC, "MC_Attachments", "MC_Attachments_thorough.cfg", 5400)
     return r
+
+
+def blip_allow_list(ctx):
+    """last clause of C14: getAttachment is served only while a revision referencing the digest is being sent (AllowWindow.tla)."""
+    if os.environ.get("VERIF_C14_NOBLIP"):
+        return
+    if not os.environ.get("VERIF_C14_NOMC"):
+        r = model_check(ctx, SPEC, "MC_AllowWindow", "MC_AllowWindow.cfg", 600, workers=2)
+    bad = None
+    for attempt in (1, 2):        # the "window closes after the reply" probe has a wall-clock bound (10 s): a failure must reproduce
+        tr = os.path.join(ctx.scratch, "c14-blip-%d.ndjson" % attempt)
+        rc, out = go_test(ctx, "rest", "^TestVerif_C14_BlipAllowList$", ["harness/rest/c14_blip_attachments_test.go"], env={"VERIF_TRACE_OUT": tr}, timeout=1800)
+        if rc != 0 or not os.path.exists(tr):
+            raise Inconclusive("C14 BLIP harness failed:\n" + harness_failure(out))
+        rows = read_ndjson(tr)
+        gets = [r for r in rows if r["a"] == "Get"]
+        served_in = sum(1 for r in gets if r["served"] and r["ph"] == "during")
+        if not served_in:
+            raise Inconclusive("C14 BLIP harness: no getAttachment was served during a pull (vacuous)")
+        vp = validate(ctx, SPEC, "Trace_AllowWindow", "Trace_AllowWindow_P.cfg", tr, tag="blipP%d" % attempt)
+        if vp.inv:
+            r = rows[(vp.line or 2) - 2] if vp.line and vp.line >= 2 else {}
+            this = (vp.inv, json.dumps({k: r.get(k) for k in ("a", "ph", "fl", "d", "c", "res", "closed")}, sort_keys=True), proto_of(rows, (vp.line or 2) - 2))
+            if bad is not None and bad[0] == this[0]:
+                inv, what, proto = this
+                report_violation(ctx, "%s:proto=V%s:%s" % (inv, proto, what),
+                                 "BLIP connection (sub-protocol V%s) breaks %s at %s (in flight fl = document being pulled; refs: d1{c1,c2} d2{c3,c1} d3{c2} d4{})" % (proto, inv, what),
+                                 {"invariant": inv, "line": r, "events": [x for x in rows[max(0, (vp.line or 2) - 40):(vp.line or 2)] if x["a"] != "Get" or x["served"]]})
+                return
+            bad = this
+            continue
+        if not vp.accepted:
+            raise Inconclusive("BLIP trace: pass P stopped at line %s of %s\n%s" % (vp.line, vp.total, vp.out[-1200:]))
+        vc = validate(ctx, SPEC, "Trace_AllowWindow", "Trace_AllowWindow_C.cfg", tr, tag="blipC%d" % attempt)
+        if vc.inv or not vc.accepted:
+            ctx.cov["nonconformance"] += 1
+            ctx.notes.append("BLIP trace pass C rejected at line %s (%s)" % (vc.line, vc.inv))
+        else:
+            ctx.cov["traces_validated_against_impl"] += sum(1 for r in rows if r["a"] == "Reset")
+        ctx.cov["evaluations"] += sum(1 for r in rows if r["a"] == "Reset")
+        ctx.cov["blip_allow_list"] = {"connections": sum(1 for r in rows if r["a"] == "Reset"), "getAttachment_probes": len(gets),
+                                      "served_during_pull": served_in, "refused": sum(1 for r in gets if not r["served"]),
+                                      "windows_seen_closed": sum(1 for r in rows if r["a"] == "Ack" and r["closed"])}
+        if bad is not None:
+            ctx.notes.append("BLIP allow-list: %s failed once and did not reproduce (wall-clock bound): %s" % (bad[0], bad[1]))
+        return
+
+
+def proto_of(rows, i):
+    for r in reversed(rows[:max(0, i) + 1]):
+        if r["a"] == "Reset":
+            return r["proto"]
+    return "?"
 
 
 def prune_safe(b):
